@@ -1,8 +1,12 @@
 """Independent strict structural parser for TDMS segments (C08's oracle; shares nothing with nptdms).
 
-`parse_segment(buf, pos)` parses exactly one segment and raises Structural when any length field
+`parse_segment(buf, pos, state=...)` parses exactly one segment and raises Structural when any length field
 does not equal the bytes that follow it, the metadata does not end at the raw-data offset, or the
-raw data length is not what the declared types and counts imply."""
+raw data length is not what the types and counts in force imply.  "In force" follows the TDMS layout, not
+the habits of today's TdmsWriter: an object may restate its raw data index, refer to its previous one
+("same as before"), carry over from the previous segment's object list (no kTocNewObjList), and the raw data
+may hold any whole number of chunks.  `state` carries the object list and last indexes from segment to
+segment (`seg['state']` is the state after the segment)."""
 import struct
 
 from . import fmt
@@ -97,7 +101,7 @@ def read_prop_value(cur, t, e):
     raise Structural('property of unsupported type %s' % t, field='property type')
 
 
-def parse_segment(buf, pos, tag=b'TDSm', index=False):
+def parse_segment(buf, pos, tag=b'TDSm', index=False, state=None):
     """Returns a dict describing the segment that starts at pos."""
     if len(buf) - pos < fmt.LEAD_IN:
         raise Structural('truncated lead-in at %d' % pos, field='lead-in')
@@ -168,39 +172,83 @@ def parse_segment(buf, pos, tag=b'TDSm', index=False):
                 cur.pos - meta_start, raw_off), field='raw_off', parsed=cur.pos - meta_start, stated=raw_off)
     elif raw_off != 0:
         raise Structural('no metadata flag but raw data offset %d' % raw_off, field='raw_off')
-    # raw data (one chunk, as TdmsWriter writes it)
-    expect = 0
+    # ---- object list and indexes in force (format state machine)
+    prev = state or {'active': [], 'last': {}}
+    active = [list(a) for a in prev['active']]          # [path, has_data, idx]   idx = {'type', 'count', 'total'}
+    last = dict(prev['last'])
+    if toc & fmt.TOC_META:
+        if (toc & fmt.TOC_NEWOBJ) or state is None:
+            active = []
+        for obj in seg['objects']:
+            if obj['index'] == 'full':
+                idx, has = {'type': obj['type'], 'count': obj['count'], 'total': obj['total']}, True
+            elif obj['index'] == 'same':
+                if obj['path'] not in last:
+                    raise Structural('%s refers to its previous raw data index but none was ever stated' % obj['path'],
+                                     field='index header')
+                idx, has = last[obj['path']], True
+            else:
+                idx, has = last.get(obj['path']), False
+            for a in active:
+                if a[0] == obj['path']:
+                    a[1], a[2] = has, idx
+                    break
+            else:
+                active.append([obj['path'], has, idx])
+            if idx is not None:
+                last[obj['path']] = idx
+    elif state is None:
+        raise Structural('first segment without metadata', field='toc')
+    seg['state'] = {'active': active, 'last': last}
+    chunk = 0
+    for (path, has, idx) in active:
+        if has:
+            size = fmt.size_of(idx['type'])
+            chunk += idx['total'] if size is None else size * idx['count']
+    raw_len = next_off - raw_off
+    seg['raw_expected'] = chunk
+    if chunk == 0:
+        nchunks = 0
+        if raw_len != 0:
+            raise Structural('raw data is %d bytes but the declared types and counts imply %d' % (raw_len, 0),
+                             field='raw length', actual=raw_len, implied=0)
+    else:
+        if raw_len % chunk != 0 or (raw_len == 0 and (toc & fmt.TOC_RAW)):
+            raise Structural('raw data is %d bytes but the declared types and counts imply %d' % (raw_len, chunk),
+                             field='raw length', actual=raw_len, implied=chunk)
+        nchunks = raw_len // chunk
+    seg['chunks'] = nchunks
     extents = []
     at = data_pos
-    for obj in seg['objects']:
-        if obj['index'] == 'full':
-            size = fmt.size_of(obj['type'])
-            nbytes = obj['total'] if size is None else size * obj['count']
-            extents.append((obj['path'], at, at + nbytes))
-            at += nbytes
-            expect += nbytes
-    seg['extents'] = extents
-    seg['raw_expected'] = expect
-    raw_len = next_off - raw_off
-    if raw_len != expect:
-        raise Structural('raw data is %d bytes but the declared types and counts imply %d' % (raw_len, expect),
-                         field='raw length', actual=raw_len, implied=expect)
-    if not index:
-        # string channels: offsets must be cumulative ends and sum up to the stated total
-        for obj, (path, a, b) in zip([o for o in seg['objects'] if o['index'] == 'full'], extents):
-            if obj['type'] == 'str':
-                n = obj['count']
+    interleaved = bool(toc & fmt.TOC_INTERLEAVED)
+    if interleaved and any(has and fmt.size_of(idx['type']) is None for (_p, has, idx) in active):
+        raise Structural('interleaved segment with a string channel', field='toc')
+    if interleaved and len(set(idx['count'] for (_p, has, idx) in active if has)) > 1:
+        raise Structural('interleaved segment with channels of different lengths', field='toc')
+    for _c in range(nchunks):
+        for (path, has, idx) in active:
+            if not has:
+                continue
+            size = fmt.size_of(idx['type'])
+            nbytes = idx['total'] if size is None else size * idx['count']
+            extents.append((path, at, at + nbytes))
+            if not index and not interleaved and idx['type'] == 'str':
+                # string channels: offsets must be cumulative ends and sum up to the stated total
+                n = idx['count']
+                a, b = at, at + nbytes
                 if b - a < 4 * n:
                     raise Structural('string channel %s: total %d smaller than its %d offsets' % (path, b - a, n), field='string total')
                 offs = struct.unpack(e + '%dL' % n, buf[a:a + 4 * n]) if n else ()
-                prev = 0
+                prev_o = 0
                 for o in offs:
-                    if o < prev:
+                    if o < prev_o:
                         raise Structural('string offsets not monotone for %s' % path, field='string offsets')
-                    prev = o
-                if 4 * n + prev != b - a:
+                    prev_o = o
+                if 4 * n + prev_o != b - a:
                     raise Structural('string channel %s: offsets end at %d but %d bytes of text follow' % (
-                        path, prev, b - a - 4 * n), field='string total')
+                        path, prev_o, b - a - 4 * n), field='string total')
+            at += nbytes
+    seg['extents'] = extents
     if bool(toc & fmt.TOC_RAW) != (raw_len > 0) and raw_len > 0:
         raise Structural('raw data present without kTocRawData', field='toc')
     return seg
@@ -209,8 +257,10 @@ def parse_segment(buf, pos, tag=b'TDSm', index=False):
 def parse_file(buf, tag=b'TDSm', index=False):
     segs = []
     pos = 0
+    state = None
     while pos < len(buf):
-        s = parse_segment(buf, pos, tag=tag, index=index)
+        s = parse_segment(buf, pos, tag=tag, index=index, state=state)
+        state = s['state']
         segs.append(s)
         pos = s['data_pos'] if index else s['end']
     return segs
